@@ -1,1 +1,373 @@
-/- C19 — property theorems (stub: not built yet). -/
+/-
+C19 — Dominant bpm, scroll speed and SV normalisation follow their definitions.
+Property theorems (helper lemmas: `Reamber/Lemmas/Analysis.lean`).  Statements are about the executable model
+`Reamber/Model/Analysis.lean`, which the correspondence check ties to
+reamber/algorithms/{utils/dominant_bpm.py, analysis/scroll_speed.py, generate/sv_normalize.py} on every run,
+against the declarative `Reamber/Spec/Analysis.lean` (the same definitions the driver evaluates on the
+implementation's output).
+-/
+import Reamber.Lemmas.Analysis
+import Reamber.Generated.Analysis
+
+namespace Reamber.Analysis
+
+/-- Tie to the source: the literals of scroll_speed.py's helper frames, the `override_bpm` defaults, the set of
+games with SVs and the fact that `stack()` ranges over the tempo/SV lists are what the translator read from
+the code. Re-checked whenever they change. -/
+theorem consts_tie :
+    resetMult = Generated.Analysis.resetMult ∧
+    headTailMult = Generated.Analysis.headTailMult ∧
+    headTailBpm = Generated.Analysis.headTailBpm ∧
+    overrideDefault = Generated.Analysis.overrideDefault ∧
+    gamesWithSv = Generated.Analysis.gamesWithSv ∧
+    Generated.Analysis.stackCoversTempoAndSv = true := by decide +kernel
+
+/-! ### dominant bpm -/
+
+/-- The rows `dominant_bpm` groups: after both sorts and the positional pairing, each tempo point (in time
+order) carries exactly its own active span — for tempo rows in any order. -/
+theorem dominantRows_eq (bpms : List Tp) (L : Rat) (hd : (bpms.map (·.time)).Nodup) (hL : ∀ p ∈ bpms, p.time ≤ L) :
+    dominantRows bpms L = (sortTp bpms).map (fun p => (p.bpm, span (bpms.map (·.time)) L p.time)) := by
+  have hperm : (sortTp bpms).Perm bpms := sortTp_perm bpms
+  have hsorted := sortTp_sorted bpms
+  have hnd : ((sortTp bpms).map (·.time)).Nodup := (hperm.map _).nodup_iff.mpr hd
+  have hstrict : ((sortTp bpms).map (·.time)).Pairwise (· < ·) := by
+    have h1 : ((sortTp bpms).map (·.time)).Pairwise (· ≤ ·) := List.pairwise_map.mpr hsorted
+    exact (h1.and hnd).imp (fun h => lt_of_le_of_ne h.1 h.2)
+  have hLs : ∀ p ∈ sortTp bpms, p.time ≤ L := fun p hp => hL p (hperm.mem_iff.mp hp)
+  have hsortid : sortRat ((sortTp bpms).map (·.time) ++ [L]) = (sortTp bpms).map (·.time) ++ [L] := by
+    apply isort_eq_self
+    rw [List.pairwise_append]
+    refine ⟨hstrict.imp (fun h => by simpa using le_of_lt h), by simp, ?_⟩
+    intro x hx y hy
+    simp only [List.mem_singleton] at hy
+    subst hy
+    obtain ⟨p, hp, rfl⟩ := List.mem_map.mp hx
+    simpa using hLs p hp
+  unfold dominantRows
+  simp only []
+  rw [hsortid, rows_sorted (sortTp bpms) L [] hstrict (by simp) hLs]
+  simp only [List.nil_append]
+  apply List.map_congr_left
+  intro p _
+  rw [span_perm (hperm.map _)]
+
+/-- `groupby(level=0).sum()` of those rows is the declarative total of every bpm value -/
+theorem groupSum_dominantRows (bpms : List Tp) (L : Rat) (hd : (bpms.map (·.time)).Nodup)
+    (hL : ∀ p ∈ bpms, p.time ≤ L) :
+    groupSum (dominantRows bpms L)
+      = (groupKeys ((sortTp bpms).map (·.bpm))).map (fun k => (k, totalTime bpms L k)) := by
+  have hperm : (sortTp bpms).Perm bpms := sortTp_perm bpms
+  unfold groupSum
+  rw [dominantRows_eq bpms L hd hL]
+  have hk : ((sortTp bpms).map (fun p => (p.bpm, span (bpms.map (·.time)) L p.time))).map (·.1)
+      = (sortTp bpms).map (·.bpm) := by simp [List.map_map, Function.comp_def]
+  rw [hk]
+  apply List.map_congr_left
+  intro k _
+  rw [filter_rows (fun p => span (bpms.map (·.time)) L p.time) k (sortTp bpms)]
+  rw [sumRat_perm ((hperm.filter _).map _)]
+  rfl
+
+/-- **dominant_is_max.** For every chart with at least one tempo point, no two tempo points at the same
+time, tempo rows in *any* order, and `last` at or after every tempo point (it is `stack().offset.max()`),
+`dominant_bpm` returns a bpm value of the chart whose total active time between the first tempo point and
+the last object is maximal. (Ties: the value returned is one of the maximisers.) -/
+theorem dominant_is_max (bpms : List Tp) (L : Rat) (hne : bpms ≠ [])
+    (hd : (bpms.map (·.time)).Nodup) (hL : ∀ p ∈ bpms, p.time ≤ L) :
+    ∃ v, dominantBpm bpms L = some v ∧ IsDominant bpms L v := by
+  have hperm : (sortTp bpms).Perm bpms := sortTp_perm bpms
+  have hmemk : ∀ k, k ∈ groupKeys ((sortTp bpms).map (·.bpm)) ↔ ∃ p ∈ bpms, p.bpm = k := by
+    intro k
+    rw [mem_groupKeys, List.mem_map]
+    constructor
+    · rintro ⟨p, hp, rfl⟩; exact ⟨p, hperm.mem_iff.mp hp, rfl⟩
+    · rintro ⟨p, hp, rfl⟩; exact ⟨p, hperm.mem_iff.mpr hp, rfl⟩
+  have hgs := groupSum_dominantRows bpms L hd hL
+  obtain ⟨p0, hp0⟩ := List.exists_mem_of_ne_nil bpms hne
+  have hne' : groupSum (dominantRows bpms L) ≠ [] := by
+    rw [hgs]
+    apply List.ne_nil_of_mem (a := (p0.bpm, totalTime bpms L p0.bpm))
+    exact List.mem_map.mpr ⟨p0.bpm, (hmemk _).mpr ⟨p0, hp0, rfl⟩, rfl⟩
+  obtain ⟨q, hq, hidx, hmax⟩ := idxmax_spec hne'
+  rw [hgs] at hq hmax
+  obtain ⟨k, hk, rfl⟩ := List.mem_map.mp hq
+  refine ⟨k, hidx, (hmemk k).mp hk, ?_⟩
+  intro p hp
+  exact hmax (p.bpm, totalTime bpms L p.bpm)
+    (List.mem_map.mpr ⟨p.bpm, (hmemk _).mpr ⟨p, hp, rfl⟩, rfl⟩)
+
+/-- the decidable form the driver evaluates on implementation output is the stated relation -/
+theorem isDominantB_iff (bpms : List Tp) (L v : Rat) : isDominantB bpms L v = true ↔ IsDominant bpms L v := by
+  simp [isDominantB, IsDominant]
+
+/-! non-vacuity: unsorted rows, a repeated bpm value, an exact tie (both 100 and 200 total 1500 ms; the code returns 100) -/
+example : dominantBpm [⟨1000, 200⟩, ⟨0, 100⟩, ⟨1500, 100⟩, ⟨2000, 200⟩] 3000 = some 100 := by decide +kernel
+example : IsDominant [⟨1000, 200⟩, ⟨0, 100⟩, ⟨1500, 100⟩, ⟨2000, 200⟩] 3000 200 := by
+  rw [← isDominantB_iff]; decide +kernel
+example : ¬ IsDominant [⟨1000, 200⟩, ⟨0, 100⟩] 1500 200 := by
+  rw [← isDominantB_iff]; decide +kernel
+
+/-- the error branch is covered, not totalised: with no tempo point `idxmax` raises (model: `none`) -/
+theorem dominant_empty (L : Rat) : dominantBpm [] L = none := rfl
+
+/-! ### reference bpm: an override replaces the dominant bpm -/
+
+theorem refBpm_override (bpms : List Tp) (L b : Rat) (hb : b ≠ 0) : refBpm bpms L (some b) = some b := by
+  simp [refBpm, hb]
+
+theorem refBpm_default (bpms : List Tp) (L : Rat) : refBpm bpms L overrideDefault = dominantBpm bpms L := rfl
+
+/-- the reference is the override when one is given (non-zero), else a dominant bpm -/
+theorem refBpm_spec (bpms : List Tp) (L : Rat) (ov : Option Rat) (hne : bpms ≠ [])
+    (hd : (bpms.map (·.time)).Nodup) (hL : ∀ p ∈ bpms, p.time ≤ L) (hov : ∀ b, ov = some b → b ≠ 0) :
+    ∃ ref, refBpm bpms L ov = some ref ∧ IsRef bpms L ov ref := by
+  cases ov with
+  | none => exact dominant_is_max bpms L hne hd hL
+  | some b => exact ⟨b, refBpm_override bpms L b (hov b (by simp)), rfl⟩
+
+/-! ### SV normalisation -/
+
+/-- **sv_normalize_spec.** One SV per tempo point (row by row), at its time, whose multiplier times that bpm
+is the reference — for any reference, any number and order of tempo points, bpm ≠ 0. -/
+theorem sv_normalize_spec (bpms : List Tp) (ref : Rat) (hb : ∀ p ∈ bpms, p.bpm ≠ 0) :
+    SvNormOk bpms ref (svNormalizeWith bpms ref) := by
+  refine ⟨by simp [svNormalizeWith], ?_⟩
+  intro i h h'
+  simp only [svNormalizeWith, List.getElem_map]
+  exact ⟨trivial, div_mul_cancel₀ ref (hb _ (List.getElem_mem h))⟩
+
+/-- `sv_normalize(m, override)`: the reference is the override or a dominant bpm, and the result normalises
+every tempo point to it -/
+theorem sv_normalize_correct (bpms : List Tp) (L : Rat) (ov : Option Rat) (hne : bpms ≠ [])
+    (hd : (bpms.map (·.time)).Nodup) (hL : ∀ p ∈ bpms, p.time ≤ L) (hb : ∀ p ∈ bpms, p.bpm ≠ 0)
+    (hov : ∀ b, ov = some b → b ≠ 0) :
+    ∃ ref out, svNormalize bpms L ov = some out ∧ IsRef bpms L ov ref ∧ SvNormOk bpms ref out := by
+  obtain ⟨ref, href, hspec⟩ := refBpm_spec bpms L ov hne hd hL hov
+  exact ⟨ref, svNormalizeWith bpms ref, by simp [svNormalize, href], hspec, sv_normalize_spec bpms ref hb⟩
+
+theorem svNormOkB_sound (bpms : List Tp) (ref : Rat) (out : List Sv) :
+    svNormOkB bpms ref out = true → SvNormOk bpms ref out := by
+  intro h
+  simp only [svNormOkB, Bool.and_eq_true, decide_eq_true_eq, List.all_eq_true] at h
+  refine ⟨h.1, ?_⟩
+  intro i hi hi'
+  have := h.2 (bpms[i], out[i]) (by
+    rw [List.mem_iff_getElem]
+    exact ⟨i, by simp [List.length_zip, hi, hi'], by simp⟩)
+  simpa using this
+
+example : svNormalize [⟨1000, 200⟩, ⟨0, 100⟩] 1500 none = some [⟨1000, 1/2⟩, ⟨0, 1⟩] := by decide +kernel
+example : svNormalize [⟨1000, 200⟩, ⟨0, 100⟩] 1500 (some 300) = some [⟨1000, 3/2⟩, ⟨0, 3⟩] := by decide +kernel
+
+/-! ### scroll speed
+
+Full statement (DESIGN §6 `scroll_speed_spec`), kept visible:
+
+    theorem scroll_speed_spec (hasSv bpms svs omin omax ov) (tempo points distinct, one exists, bpm ≠ 0,
+        omax at or after every tempo point, no marker/tempo tie at omax — D42) :
+      ∃ ref out, scrollSpeed hasSv bpms svs omin omax ov = some out ∧ IsRef bpms omax ov ref ∧
+        speedOkB hasSv bpms svs omin omax ref out = true
+
+i.e. the offsets of the result are exactly the breakpoints and every value at or after the first tempo point is
+`active bpm / ref · active multiplier`.  Proved below: the reference part (`scroll_speed_ref_partial`), the row
+formula, the step-function mechanism (`ffill_last_valid`, for every frame), the whole tempo side
+(`ffill_active`, `sorted_bpmRows_ok`, `bpm_frame_spec`) and from it the statement for games without SVs up to
+the set of offsets (`scroll_speed_nosv_spec_partial`).  NOT proved: (a) that the result's offsets are exactly
+the breakpoints, (b) the SV side (`groupLast`, `mergeOuter`, the fills of the merged frame = the SV in force of
+`Spec.activeMults`); (a) and (b) rest on the executable check of `speedOkB` on the model's and the
+implementation's output. -/
+
+/-- the reference of `scroll_speed` is the override when one is given, else a dominant bpm; the result is the
+filled frame mapped row by row through `speedOf ref` -/
+theorem scroll_speed_ref_partial (hasSv : Bool) (bpms : List Tp) (svs : List Sv) (omin omax : Rat)
+    (ov : Option Rat) (hne : bpms ≠ []) (hd : (bpms.map (·.time)).Nodup) (hL : ∀ p ∈ bpms, p.time ≤ omax)
+    (hov : ∀ b, ov = some b → b ≠ 0) :
+    ∃ ref, IsRef bpms omax ov ref ∧
+      scrollSpeed hasSv bpms svs omin omax ov = some ((speedFrame hasSv bpms svs omin omax).map (speedOf ref)) := by
+  obtain ⟨ref, href, hspec⟩ := refBpm_spec bpms omax ov hne hd hL hov
+  exact ⟨ref, hspec, by simp [scrollSpeed, href]⟩
+
+/-- speed = bpm / reference · multiplier, row by row -/
+theorem speedOf_formula (ref t b m : Rat) : speedOf ref ⟨t, some b, some m⟩ = (t, some (b / ref * m)) := rfl
+
+/-- games without SVs: the multiplier column is the constant 1 -/
+theorem speedFrame_noSv (bpms : List Tp) (svs : List Sv) (omin omax : Rat) :
+    speedFrame false bpms svs omin omax = (bpmFrame bpms omin omax).map (fun r => ⟨r.1, r.2, some 1⟩) := rfl
+
+/-- **the step-function mechanism**, for every frame: each row of `.ffill()` sits at the offset of an input
+row and carries the last valid value among the rows up to and including it (in frame order) -/
+theorem ffill_last_valid (l : List Row) (x : Row) (hx : x ∈ ffill l) :
+    ∃ a r b, l = a ++ r :: b ∧ x = (r.1, lastSome ((a ++ [r]).map (·.2))) := by
+  have := mem_ffillAux l [] x (by simpa [ffill, lastSome] using hx)
+  simpa using this
+
+/-- … and that value, when there is one, is the value of a row at or before it with only empty rows in between -/
+theorem ffill_value_source (l : List Row) (x : Row) (v : Rat) (hx : x ∈ ffill l) (hv : x.2 = some v) :
+    ∃ a r b, l = a ++ r :: b ∧ x.1 = r.1 ∧
+      ∃ v1 v2, (a ++ [r]).map (·.2) = v1 ++ some v :: v2 ∧ ∀ w ∈ v2, w = none := by
+  obtain ⟨a, r, b, hl, rfl⟩ := ffill_last_valid l x hx
+  exact ⟨a, r, b, hl, rfl, lastSome_eq_some hv⟩
+
+/-- **ffill_active** — the forward fill of a tempo frame is the active-tempo step function. For every list of
+tempo points with distinct times and *every* arrangement `l` of the frame's rows that is sorted by offset and
+never puts a valueless row before a valued row of the same offset: each row of `l.ffill()` carries the bpm of
+the tempo point in force at its offset, or nothing when it lies strictly before every tempo point. -/
+theorem ffill_active (bpms : List Tp) (l : List Row)
+    (hs : l.Pairwise (fun a b => a.1 ≤ b.1)) (hf : FrameOf bpms l) (hv : ValuedFirst l)
+    (x : Row) (hx : x ∈ ffill l) :
+    (∃ p, IsActiveTp bpms x.1 p ∧ x.2 = some p.bpm) ∨ (x.2 = none ∧ ∀ p ∈ bpms, x.1 < p.time) := by
+  obtain ⟨a, r, b, hl, rfl⟩ := ffill_last_valid l x hx
+  obtain ⟨t, rv⟩ := r
+  rw [List.map_append, List.map_cons, List.map_nil, lastSome_snoc]
+  rw [hl] at hs
+  obtain ⟨hsa, hsrb, hab⟩ := List.pairwise_append.mp hs
+  have hrb := (List.pairwise_cons.mp hsrb).1
+  cases rv with
+  | some v' =>
+    left
+    refine ⟨⟨t, v'⟩, ⟨hf.1 t v' (by rw [hl]; simp), le_refl _, fun q _ hq => hq⟩, rfl⟩
+  | none =>
+    simp only [pick]
+    -- a tempo row can neither be the marker row itself nor follow it at the same offset
+    have hnotb : ∀ q ∈ bpms, (q.time, some q.bpm) ∈ b → t < q.time := by
+      intro q _ hqb
+      have h1 : t ≤ q.time := hrb _ hqb
+      rcases lt_or_eq_of_le h1 with h | h
+      · exact h
+      · have := hv a b t hl _ hqb h.symm
+        simp at this
+    cases hls : lastSome (a.map (·.2)) with
+    | none =>
+      right
+      refine ⟨rfl, ?_⟩
+      intro q hq
+      have hrow : (q.time, some q.bpm) ∈ l := hf.2 q hq
+      rw [hl] at hrow
+      rcases List.mem_append.mp hrow with h | h
+      · have := lastSome_eq_none hls (some q.bpm) (List.mem_map.mpr ⟨_, h, rfl⟩)
+        simp at this
+      · rcases List.mem_cons.mp h with h | h
+        · simp at h
+        · exact hnotb q hq h
+    | some v =>
+      left
+      obtain ⟨v1, v2, hsplit, hnone⟩ := lastSome_eq_some hls
+      obtain ⟨P1, P2', hP, hP1, hP2'⟩ := List.map_eq_append_iff.mp hsplit
+      obtain ⟨w, P2, hP2, hw, hP2m⟩ := List.map_eq_cons_iff.mp hP2'
+      subst hP2
+      obtain ⟨wt, wv⟩ := w
+      simp only at hw
+      subst hw
+      have hwa : (wt, some v) ∈ a := by rw [hP]; simp
+      have hP2none : ∀ y ∈ P2, y.2 = none := by
+        intro y hy
+        exact hnone _ (by rw [← hP2m]; exact List.mem_map.mpr ⟨y, hy, rfl⟩)
+      rw [hP] at hsa
+      obtain ⟨_, _, hP1w⟩ := List.pairwise_append.mp hsa
+      refine ⟨⟨wt, v⟩, ⟨hf.1 wt v (by rw [hl]; exact List.mem_append_left _ hwa), ?_, ?_⟩, rfl⟩
+      · exact hab _ hwa (t, none) (by simp)
+      · intro q hq hqt
+        have hrow : (q.time, some q.bpm) ∈ l := hf.2 q hq
+        rw [hl] at hrow
+        rcases List.mem_append.mp hrow with h | h
+        · rw [hP] at h
+          rcases List.mem_append.mp h with h | h
+          · exact hP1w _ h (wt, some v) (by simp)
+          · rcases List.mem_cons.mp h with h | h
+            · simp only [Prod.mk.injEq] at h
+              exact le_of_eq h.1
+            · have := hP2none _ h
+              simp at this
+        · rcases List.mem_cons.mp h with h | h
+          · simp at h
+          · exact absurd hqt (not_le.mpr (hnotb q hq h))
+
+/-- the stable arrangement the model sorts into satisfies the three hypotheses of `ffill_active` -/
+theorem sorted_bpmRows_ok (bpms : List Tp) (omin omax : Rat) :
+    (sortRow (bpmRows bpms omin omax)).Pairwise (fun a b => a.1 ≤ b.1) ∧
+    FrameOf bpms (sortRow (bpmRows bpms omin omax)) ∧ ValuedFirst (sortRow (bpmRows bpms omin omax)) := by
+  refine ⟨sortRow_sorted _, ⟨?_, ?_⟩, ?_⟩
+  · intro t b h
+    have h' := (isort_perm _ _).mem_iff.mp h
+    simp only [bpmRows, headTailBpm, List.zip_cons_cons, List.zip_nil_right, List.mem_append, List.mem_map,
+      List.mem_cons, Prod.mk.injEq, List.not_mem_nil, or_false] at h'
+    rcases h' with ⟨p, hp, rfl, hb⟩ | h' | h'
+    · simp only [Option.some.injEq] at hb
+      subst hb
+      exact hp
+    · simp at h'
+    · simp at h'
+  · intro p hp
+    apply (isort_perm _ _).mem_iff.mpr
+    simp only [bpmRows, List.mem_append, List.mem_map]
+    exact Or.inl ⟨p, hp, rfl⟩
+  · apply VF_valuedFirst
+    unfold bpmRows
+    apply VF_sortRow
+    · intro r hr
+      obtain ⟨p, _, rfl⟩ := List.mem_map.mp hr
+      simp
+    · intro r hr
+      simp only [headTailBpm, List.zip_cons_cons, List.zip_nil_right, List.mem_cons, List.not_mem_nil, or_false] at hr
+      rcases hr with rfl | rfl <;> rfl
+
+/-- **bpm_frame_spec** — the tempo step function of `scroll_speed` (sort, ffill, bfill, drop_duplicates), for
+every tempo list in any row order and any first / last stacked offset: each row of the frame carries the bpm
+of a tempo point in force at its offset, or lies strictly before every tempo point (where the statement is
+silent). -/
+theorem bpm_frame_spec (bpms : List Tp) (omin omax : Rat) (x : Row) (hx : x ∈ bpmFrame bpms omin omax) :
+    (∃ p, IsActiveTp bpms x.1 p ∧ x.2 = some p.bpm) ∨ (∀ p ∈ bpms, x.1 < p.time) := by
+  obtain ⟨hs, hf, hv⟩ := sorted_bpmRows_ok bpms omin omax
+  have hx' := mem_dropDup (by simpa [bpmFrame, bpmFrameOf] using hx)
+  rcases mem_bfill hx' with h | h
+  · rcases ffill_active bpms _ hs hf hv x h with h1 | h1
+    · exact Or.inl h1
+    · exact Or.inr h1.2
+  · rcases ffill_active bpms _ hs hf hv (x.1, none) h with ⟨p, _, hp⟩ | h1
+    · simp at hp
+    · exact Or.inr h1.2
+
+/-- **scroll_speed_nosv_spec_partial** — games without SVs: the reference is the override or a dominant bpm,
+and every result row at or after some tempo point is `active bpm / reference` (· 1). Missing for the full
+`scroll_speed_spec`: that the result's offsets are exactly the breakpoints, and the SV side. -/
+theorem scroll_speed_nosv_spec_partial (bpms : List Tp) (svs : List Sv) (omin omax : Rat) (ov : Option Rat)
+    (hne : bpms ≠ []) (hd : (bpms.map (·.time)).Nodup) (hL : ∀ p ∈ bpms, p.time ≤ omax)
+    (hov : ∀ b, ov = some b → b ≠ 0) :
+    ∃ ref out, scrollSpeed false bpms svs omin omax ov = some out ∧ IsRef bpms omax ov ref ∧
+      ∀ y ∈ out, (∃ p, IsActiveTp bpms y.1 p ∧ y.2 = some (p.bpm / ref * 1)) ∨ (∀ p ∈ bpms, y.1 < p.time) := by
+  obtain ⟨ref, href, hout⟩ := scroll_speed_ref_partial false bpms svs omin omax ov hne hd hL hov
+  refine ⟨ref, _, hout, href, ?_⟩
+  intro y hy
+  rw [speedFrame_noSv, List.map_map] at hy
+  obtain ⟨x, hx, rfl⟩ := List.mem_map.mp hy
+  rcases bpm_frame_spec bpms omin omax x hx with ⟨p, hp, hv⟩ | h
+  · left
+    refine ⟨p, hp, ?_⟩
+    simp [speedOf, optMul, hv]
+  · right
+    simpa [speedOf] using h
+
+/-- D42 on the model: the tempo frame of `[(0, 100), (1000, 200)]` with the last stacked offset at 1000. The
+arrangement `arr` is a permutation of the frame's rows and is sorted by offset — a legitimate result of an
+unstable sort — yet filling it produces the row (1000, 100), which the specification rejects (at 1000 the
+active bpm is 200); the stable arrangement the model uses does not. -/
+theorem sort_tie_counterexample :
+    let bpms : List Tp := [⟨0, 100⟩, ⟨1000, 200⟩]
+    let arr : List Row := [(0, some 100), (0, none), (1000, none), (1000, some 200)]
+    arr.Perm (bpmRows bpms 0 1000) ∧ arr.Pairwise (fun a b => a.1 ≤ b.1) ∧
+      (1000, some 100) ∈ bpmFrameOf arr ∧
+      rowOkB false bpms [] 100 (speedOf 100 ⟨1000, some 100, some 1⟩) = false ∧
+      tieAtMaxB bpms 1000 = true ∧
+      (1000, some 100) ∉ bpmFrame bpms 0 1000 := by decide +kernel
+
+/-! non-vacuity / worked instances: SV before the first tempo point, coinciding SVs, SV on a tempo point, tempo
+point after the last note; the model's output satisfies the executable specification -/
+example : scrollSpeed true [⟨0, 100⟩, ⟨1000, 200⟩] [⟨-500, 1/2⟩, ⟨1500, 2⟩, ⟨1500, 3⟩] (-500) 3000 none
+    = some [(-500, some (1/4)), (0, some (1/2)), (1000, some 1), (1500, some 3), (3000, some 3)] := by decide +kernel
+example : speedOkB true [⟨0, 100⟩, ⟨1000, 200⟩] [⟨-500, 1/2⟩, ⟨1500, 2⟩, ⟨1500, 3⟩] (-500) 3000 200
+    [(-500, some (1/4)), (0, some (1/2)), (1000, some 1), (1500, some 3), (3000, some 3)] = true := by decide +kernel
+example : scrollSpeed false [⟨1000, 200⟩, ⟨0, 100⟩] [] 0 1500 (some 50)
+    = some [(0, some 2), (1000, some 4), (1500, some 4)] := by decide +kernel
+
+end Reamber.Analysis
